@@ -9,7 +9,9 @@ import (
 	"net"
 	"reflect"
 	"runtime"
+	"sync"
 	"sync/atomic"
+	"unsafe"
 
 	"nhooyr.io/websocket/internal/util"
 )
@@ -167,7 +169,35 @@ func (c *Conn) vErr(ev string, err error, a int64) {
 	if vOff(c.v.id) {
 		return
 	}
-	VerifSink(VerifEvent{Conn: c.v.id, G: verifGID(), Ev: ev, A: a, B: VerifErrClass(err)})
+	VerifSink(VerifEvent{Conn: c.v.id, G: verifGID(), Ev: ev, A: a, B: VerifErrClass(err), D: vB(errors.Is(err, context.DeadlineExceeded))})
+}
+
+// verifNc maps the address of a NetConn adapter's expired flag to (connection id, direction), so that
+// deadlinePassed, which only sees the flag, can report under the timer mutex it holds. Addresses are
+// kept as integers: the table keeps no adapter alive, and a reused address is overwritten by vNcNew.
+var verifNc sync.Map
+
+func (c *Conn) vNcNew(r, w *mu, re, we *int64) {
+	verifNc.Store(uintptr(unsafe.Pointer(re)), [2]int64{c.v.id, 0})
+	verifNc.Store(uintptr(unsafe.Pointer(we)), [2]int64{c.v.id, 1})
+	c.vEv("NcNew", vObjID(r), vObjID(w), 0, 0)
+}
+
+// vNcEntry reports the outcome of the entry check of a NetConn Read/Write (A: direction, B: the
+// expired flag as the check leaves it); the caller holds the direction's timer mutex.
+func vNcEntry(expired *int64) {
+	if VerifSink == nil {
+		return
+	}
+	d, ok := verifNc.Load(uintptr(unsafe.Pointer(expired)))
+	if !ok {
+		return
+	}
+	x := d.([2]int64)
+	if vOff(x[0]) {
+		return
+	}
+	VerifSink(VerifEvent{Conn: x[0], G: verifGID(), Ev: "NcEntry", A: x[1], B: atomic.LoadInt64(expired)})
 }
 
 func (c *Conn) vObj(ev, kind string, o interface{}) {
